@@ -242,13 +242,22 @@ fn constructed(t: &mut Tape, obs: &mut Obs) -> R {
 }
 
 fn server(t: &mut Tape, obs: &mut Obs) -> R {
-    let v = t.u16b();
-    let random = t.small_blob(64);
-    let sid = if t.bool() { Some(t.small_blob(40)) } else { None };
     let tb = super::c12::tabs()?;
-    let c = if t.bool() { tb.file[t.below(tb.file.len())].id } else { t.u16b() };
-    let co = t.u8();
-    let ext = if t.bool() { Some(t.small_blob(40)) } else { None };
+    // half of the cases: arbitrary argument values; the other half: the fields of a generated ServerHello (structured extension
+    // blocks incl. the TLS 1.3 shape, RFC-meaningful randoms, real cipher ids), so that an accessor that looks into another field shows
+    let structured = if t.bool() { Some(gen_hs_kind(t, 2, 160)) } else { None };
+    let (v, random, sid, c, co, ext) = match &structured {
+        Some(MHs::ServerHello { version, random, sid, cipher, comp, ext }) => (*version, random.clone(), sid.clone(), *cipher, *comp, ext.clone()),
+        _ => {
+            let v = t.u16b();
+            let random = t.small_blob(64);
+            let sid = if t.bool() { Some(t.small_blob(40)) } else { None };
+            let c = if t.bool() { tb.file[t.below(tb.file.len())].id } else { t.u16b() };
+            let co = t.u8();
+            let ext = if t.bool() { Some(t.small_blob(40)) } else { None };
+            (v, random, sid, c, co, ext)
+        }
+    };
     obs.nontrivial((v as u64) << 32 | (c as u64) << 8 | co as u64);
     let listed = tb.file.iter().find(|r| r.id == c);
     obs.class(if listed.is_some() { "listed-cipher" } else { "unlisted-cipher" });
@@ -263,11 +272,15 @@ fn server(t: &mut Tape, obs: &mut Obs) -> R {
             (g, w) => return fail("C15:server:get_cipher", format!("get_cipher() for {:#06x}: got {:?}, registry says {:?}", c, g.map(|s| s.name), w.map(|r| &r.name))),
         }
         // a parsed ServerHello too
-        let m = MHs::ServerHello { version: 0x0303, random: vec![7; 32], sid: None, cipher: c, comp: co, ext: None };
+        let m = match &structured {
+            Some(m) => m.clone(),
+            None => MHs::ServerHello { version: 0x0303, random: vec![7; 32], sid: None, cipher: c, comp: co, ext: None },
+        };
+        let pv = if let MHs::ServerHello { version, .. } = &m { *version } else { 0x0303 };
         let enc = m.to_bytes();
         let _ = mk::hs(&m);
         if let Ok((_, TlsMessage::Handshake(TlsMessageHandshake::ServerHello(p)))) = parse_tls_message_handshake(&enc) {
-            ensure!(p.get_version().0 == 0x0303 && p.get_cipher().map(|s| s.id.0) == listed.map(|r| r.id), "C15:server:parsed", "accessors of a parsed ServerHello differ");
+            ensure!(p.get_version().0 == pv && p.get_cipher().map(|s| s.id.0) == listed.map(|r| r.id), "C15:server:parsed", "accessors of a parsed ServerHello differ: get_version() = {:#06x}, the version field is {:#06x}", p.get_version().0, pv);
         } else {
             return fail("C15:server:parse", "ServerHello encoding rejected");
         }
